@@ -329,7 +329,7 @@ def decide(pid, tier, seed, replay=None):
     # 1b. method bodies re-translated from the Rust source (translator/bodies.py): one lemma per state shape, checked
     #     by the kernel against the generic model (needs the compiled models, hence after make)
     import bodies
-    if pid in bodies.ENTRIES and not replay:
+    if (pid in bodies.ENTRIES or pid in bodies.ASSERTS) and not replay:
         _, binfo = bodies.regenerate(pid, ROOT, BUILD)
         gen_info["obligations"] = gen_info.get("obligations", 0) + binfo["obligations"]
         gen_info["discharged"] = gen_info.get("discharged", 0) + binfo["discharged"]
